@@ -23,6 +23,10 @@ func init() {
 		rule:          "each run draws from the tape a token stream (0-24 tokens over a 4-type alphabet, 3 values), an elision set (any subset of the types, sometimes EOF's own type, 1/4 of runs everything), optionally a source-lexer failure, then up to 60 steps, each choosing one of up to 4 live by-value copies of the PeekingLexer and one of Peek/Next/RawPeek/PeekAny(7 predicates)/FastForward/Range/Cursor/MakeCheckpoint/LoadCheckpoint(any earlier checkpoint of any copy)/Fork/Drop; after every step every observable of every live copy is compared with the model. distinct = hash of (per-token elided flags, EOF-type-elided flag, operation-kind sequence); non-trivial = the history contains a checkpoint restore after at least one consuming step AND a FastForward across at least one elided token",
 		assumptions:   append([]string{"the model (a pure function of token array, elision set and raw cursor) is the meaning of the property's sentences; it shares no code with lexer/peek.go"}, common...),
 		requireFaults: []string{"source-lexer-error"}}
+	props["C07"] = &propCfg{id: "C07", needGen: true, quickSeconds: 30, thoroughSecs: 900, level: "exploration", selfSeeds: 400, confirmRuns: 3, minBudget: 300,
+		rule: "each run picks a lexer definition of the simulated world (heredoc with back-reference, conformance, Pop-reachable-at-root, Return-reachable-at-root, interpolated strings, invalid back-references, basic runtime/checked-in generated, NewSimple ini, text/scanner) or its twin generated at check time by the working tree's generator, a corpus document, a content-fault plan (early EOF / corrupt / drop / dup / reorder, biased to token boundaries; none in the fault-free sub-batch), an entry point (Lex over a SimReader with a drawn delivery schedule and optional read error, LexString, LexBytes), optionally a second lexer of the same definition alternated with the first, and 0-5 further Next calls after EOF or after an error; clauses: no panic, each Next within 10^4+10^2*len(D) logical steps, non-empty non-EOF tokens, at most len(D) tokens, EOF repeats at the identical position. distinct = hash of (definition, entry point, terminal event and post-terminal call count per lexer, fired fault kinds, delivered bytes); non-trivial = at least one token was emitted and (a fault fired or the run ended in a lexer error or two lexers were alternated)",
+		assumptions: append([]string{"decided for the definitions of the simulated world only, not for the universal quantifier over rule maps", "logical step cap per Next call (10^4 + 10^2*len(D) statement-level yields) stands in for termination; the observed maximum is reported next to the cap"}, common...),
+		requireFaults: []string{"early-eof", "corrupt", "drop", "dup", "reorder", "chunk", "stutter", "eof-with-data", "read-error"}}
 }
 
 type evidence struct {
